@@ -2382,3 +2382,28 @@ def dnf_paths(paths: list[Path], limit: int = 32) -> list[Path]:
                 continue
             out.append(replace(p, conds=conds))
     return resolve_ites(out)
+
+
+def bool_paths(paths: list[Path]) -> list[Path]:
+    """A predicate that returns a boolean EXPRESSION (`return a == b`) is the same as one that tests it and returns True / False:
+    every return path with a non-constant boolean value is split into its two outcomes."""
+    out: list[Path] = []
+    for p in paths:
+        v = p.value
+        if p.kind != "return" or v in (TRUE, FALSE) or v[0] == "const":
+            out.append(p)
+            continue
+        if v[0] in ("eq", "ne", "in", "not", "and", "or", "isinstance", "truth", "any", "all", "lt", "le", "subset", "psubset", "isnone", "disjoint", "call", "meth"):
+            for alt in _pos_alts(v, 16):
+                conds = p.conds
+                for l in alt:
+                    conds = add_cond(conds, l)
+                out.append(replace(p, conds=conds, value=TRUE))
+            for alt in _neg_alts(v, 16):
+                conds = p.conds
+                for l in alt:
+                    conds = add_cond(conds, l)
+                out.append(replace(p, conds=conds, value=FALSE))
+        else:
+            out.append(p)
+    return out
